@@ -336,13 +336,13 @@ func init() {
 		Name: "refcount-access-park", Props: []string{"C10"}, ObsNames: stdObs,
 		Doc:   "RefCount.Access whose callback parks until its context is done (first invocation) and returns nil afterwards; the first value is invalidated by released() from another thread: the callback context must be cancelled, the callback re-invoked with the replacement and Access must return the second invocation's result",
 		Quick: eng.Bounds{PB: 3, Delay: true}, Thorough: eng.Bounds{PB: 4, Delay: true},
-		Body:  accessBody([]int{1, 0}, mInvalidate, false, false),
+		Body: accessBody([]int{1, 0}, mInvalidate, false, false),
 	})
 	eng.Register(&eng.Scenario{
 		Name: "refcount-access-fast", Props: []string{"C10"}, ObsNames: stdObs,
 		Doc:   "RefCount.Access whose callback returns a distinct error at once per invocation, racing with released() and a context change: the returned error must belong to an invocation whose value was still valid when it returned",
 		Quick: eng.Bounds{PB: 3, Delay: true}, Thorough: eng.Bounds{PB: 4, Delay: true},
-		Body:  accessBody([]int{2}, mInvalidate, false, true),
+		Body: accessBody([]int{2}, mInvalidate, false, true),
 	})
 	eng.Register(&eng.Scenario{
 		Name: "refcount-access-cancel", Props: []string{"C10"}, ObsNames: stdObs,
